@@ -85,6 +85,8 @@ type epochAt struct {
 	step      int
 	ver, conf uint64
 	region    *core.RegionInfo // PD's view at that epoch
+	leader    uint64
+	at        time.Time
 }
 
 type hbSeen struct {
@@ -372,8 +374,8 @@ func (ow *opWorld) monitorOps() {
 		}
 		h := ow.epochHist[r.GetID()]
 		e := r.GetRegionEpoch()
-		if n := len(h); n == 0 || h[n-1].ver != e.GetVersion() || h[n-1].conf != e.GetConfVer() {
-			ow.epochHist[r.GetID()] = append(h, epochAt{ow.RC.S.Step, e.GetVersion(), e.GetConfVer(), r})
+		if n := len(h); n == 0 || h[n-1].ver != e.GetVersion() || h[n-1].conf != e.GetConfVer() || h[n-1].leader != r.GetLeader().GetId() {
+			ow.epochHist[r.GetID()] = append(h, epochAt{ow.RC.S.Step, e.GetVersion(), e.GetConfVer(), r, r.GetLeader().GetId(), time.Now()})
 		}
 	}
 	inSet := map[*operator.Operator]bool{}
@@ -450,6 +452,29 @@ func (ow *opWorld) pdRegionAt(id uint64, e *metapb.RegionEpoch) *core.RegionInfo
 		}
 	}
 	return nil
+}
+
+// pdRegionAtTime returns PD's view of a region with the given epoch as of time T (the newest one observed not after
+// T), and whether its leader is certain (no other leader was observed within a second of T).
+func (ow *opWorld) pdRegionAtTime(id uint64, e *metapb.RegionEpoch, T time.Time) (*core.RegionInfo, bool) {
+	h := ow.epochHist[id]
+	var pick *epochAt
+	for i := range h {
+		if h[i].ver == e.GetVersion() && h[i].conf == e.GetConfVer() && !h[i].at.After(T) {
+			pick = &h[i]
+		}
+	}
+	if pick == nil {
+		return nil, false
+	}
+	// (an observation may lag the change by some scheduler steps, not by simulated seconds)
+	sure := true
+	for i := range h {
+		if d := h[i].at.Sub(T); d > -time.Second && d < time.Second && h[i].leader != pick.leader {
+			sure = false
+		}
+	}
+	return pick.region, sure
 }
 
 // pdRegion returns PD's cached view of a region.
